@@ -137,7 +137,8 @@ def canon(v, agent=None, keep=None):
         name = keep.pop(0) if keep else None
         if agent is not None and name is not None:
             agent.h[name] = v
-        return {'$proxy': v._id, 'typeid': v._token.typeid, 'as': name, 'cls': type(v).__name__}
+        return {'$proxy': v._id, 'typeid': v._token.typeid, 'as': name, 'cls': type(v).__name__,
+                'addr': str(v._token.address)}
     if v is None or isinstance(v, (bool, int, str)):
         return v
     if isinstance(v, float):
@@ -204,9 +205,10 @@ def decanon(v, agent):
 # ----------------------------------------------------------------------------------------------
 
 class Agent:
-    def __init__(self, name, manager, queue=None):
+    def __init__(self, name, manager, queue=None, manager_b=None):
         self.name = name
         self.manager = manager
+        self.managers = {'A': manager, 'B': manager_b}   # a second, independent server process (or None)
         self.queue = queue     # a multiprocessing.Queue shared by all clients of the case
         self.h = {}            # handle name -> proxy
         self.children = {}     # child name -> Process
@@ -219,8 +221,8 @@ class Agent:
             return {'$raised': canon_exc(e), 'trace': traceback.format_exc()[-1500:]}
 
     # -- reference-level commands
-    def c_create(self, typeid, args, name):
-        p = getattr(self.manager, typeid)(*decanon(args, self))
+    def c_create(self, typeid, args, name, srv='A'):
+        p = getattr(self.managers[srv], typeid)(*decanon(args, self))
         return canon(p, self, [name])
 
     def c_pickle(self, name):
@@ -315,7 +317,8 @@ class Agent:
             Process = multiprocessing.get_context('spawn').Process
         # handles: list of [name in this client, name in the child]
         p = Process(target=client_main,
-                    args=(child, addr, self.manager, [(hc, self.h[hp]) for hp, hc in handles], hold, self.queue))
+                    args=(child, addr, self.manager, [(hc, self.h[hp]) for hp, hc in handles], hold, self.queue,
+                          self.managers['B']))
         p.start()
         # `drop`: this client's own proxies (by name) that it deletes right after start(), i.e. while
         # the pickled copies are still in transit to the bootstrapping child (start() has already
@@ -338,21 +341,21 @@ class Agent:
 _HELD = []
 
 
-def client_main(name, addr, manager, proxies, hold=False, queue=None):
+def client_main(name, addr, manager, proxies, hold=False, queue=None, manager_b=None):
     """a client process: connect to the director, execute its commands until 'exit'.
     `hold`: keep the agent (and with it every proxy it still has) referenced from a module global,
     so that the proxies are still alive when the process exits (only exit handlers can then give
     their references back); otherwise they die with this function's frame."""
     from multiprocessing.connection import Client
     _register()
-    ag = Agent(name, manager, queue)
+    ag = Agent(name, manager, queue, manager_b)
     if hold:
         _HELD.append(ag)
     info = []
     p = None
     for h, p in proxies:
         ag.h[h] = p
-        info.append([h, p._id, p._token.typeid])
+        info.append([h, p._id, p._token.typeid, str(p._token.address)])
     # the Process object keeps its `args` alive for the life of the child: empty the list in place,
     # so that the agent's handle table holds the only reference to each inherited proxy
     proxies.clear()
@@ -385,12 +388,19 @@ class Director:
         self.settle = case.get('settle', 1.5)
         self.manager = ServerProcess()
         self.manager.start()
+        self.servers = {'A': self.manager}
+        if case.get('two_servers'):
+            # a second, independent manager server process; proxies of objects hosted by one server may be
+            # stored inside containers hosted by the other
+            self.servers['B'] = ServerProcess()
+            self.servers['B'].start()
+        self.srv_of = {str(m._address): name for name, m in self.servers.items()}
         import multiprocessing
-        self.me = Agent('0', self.manager, multiprocessing.get_context('spawn').Queue())
+        self.me = Agent('0', self.manager, multiprocessing.get_context('spawn').Queue(), self.servers.get('B'))
         self.listener = Listener(family='AF_UNIX')
         self.addr = self.listener.address
         self.conns = {}
-        self.real2h = {}      # real ident string -> harness ident (latest incarnation)
+        self.real2h = {}      # '<server>:<real ident string>' -> harness ident (latest incarnation)
         self.shm = {}         # harness ident -> shared memory name
         self.saved = {}       # token -> pickle (hex) in transit
 
@@ -470,19 +480,28 @@ class Director:
             return {'$hang': f'client {who} died during {cmd[0]}'}
 
     def table(self):
+        """every server's own table (debug_info), merged: harness idents are unique over the servers; an entry a
+        server has under an id the harness did not see created *on that server* shows up as 'real:<srv>:…'"""
         from multiprocessing.managers import dispatch
-        conn = self.manager._Client(self.manager._address, authkey=self.manager._authkey)
-        try:
-            info = dispatch(conn, None, 'debug_info')
-        finally:
-            conn.close()
         rc = {}
-        for d in info:
-            hid = self.real2h.get(d['id'])
-            key = str(hid) if hid is not None else 'real:' + d['id'] + ':' + d['type']
-            rc[key] = d['refcount:']
+        per = {}
+        for srv, m in self.servers.items():
+            conn = m._Client(m._address, authkey=m._authkey)
+            try:
+                info = dispatch(conn, None, 'debug_info')
+            finally:
+                conn.close()
+            per[srv] = {}
+            for d in info:
+                hid = self.real2h.get(srv + ':' + d['id'])
+                key = str(hid) if hid is not None else f'real:{srv}:{d["id"]}:{d["type"]}'
+                rc[key] = d['refcount:']
+                per[srv][key] = d['refcount:']
         shm = sorted(str(i) for i, nm in self.shm.items() if os.path.exists('/dev/shm/' + nm.lstrip('/')))
-        return {'rc': rc, 'shm': shm}
+        out = {'rc': rc, 'shm': shm}
+        if len(self.servers) > 1:
+            out['per_server'] = per
+        return out
 
     def observe(self, expect):
         """poll until the server's table equals `expect` or the settle deadline passes"""
@@ -508,7 +527,7 @@ class Director:
             if isinstance(v, dict):
                 if '$proxy' in v:
                     if v.get('as') is not None:
-                        found[v['as']] = v['$proxy']
+                        found[v['as']] = self.srv_of.get(v.get('addr'), '?') + ':' + v['$proxy']
                     return
                 for x in v.values():
                     walk(x)
@@ -517,8 +536,8 @@ class Director:
                     walk(x)
         walk(r)
         if isinstance(r, dict) and 'proxies' in r:      # hello of a spawned child
-            for h, rid, _t in r['proxies']:
-                found[h] = rid
+            for h, rid, _t, addr in r['proxies']:
+                found[h] = self.srv_of.get(addr, '?') + ':' + rid
         for name, hid, kind in news:
             if name in found:
                 self.real2h[found[name]] = hid
@@ -527,7 +546,7 @@ class Director:
         """add the harness ident to every proxy in a canonical result"""
         if isinstance(v, dict):
             if '$proxy' in v:
-                v['hid'] = self.real2h.get(v['$proxy'])
+                v['hid'] = self.real2h.get(self.srv_of.get(v.get('addr'), '?') + ':' + v['$proxy'])
                 return
             for x in v.values():
                 self.annotate(x)
@@ -585,10 +604,11 @@ class Director:
                 c.send(('exit',))
             except Exception:  # noqa
                 pass
-        try:
-            self.manager.shutdown()
-        except Exception:  # noqa
-            pass
+        for m in self.servers.values():
+            try:
+                m.shutdown()
+            except Exception:  # noqa
+                pass
         # the process group is killed after us: do not leave shared memory files behind
         for nm in self.shm.values():
             try:
